@@ -77,8 +77,8 @@ ESCROW_FAMILIES = {
 FAMILIES.update(ESCROW_FAMILIES)
 
 # which families matter for which property (quick tier); thorough runs all of them
-QUICK = {"C01": ["SQ1", "SQ3", "A", "E"], "C02": ["E", "E3q", "A", "SQ1"], "C03": ["SQ1", "SQ2", "S", "E"], "C04": ["SQ1", "SQ2", "SQ3", "A"],
-         "C05": ["SQ1", "SQ2", "SQ3", "S"], "C06": ["B", "R", "SQ2"], "C07": ["R", "SQ1"], "C08": ["RX", "R"],
+QUICK = {"C01": ["SQ1", "SQ3", "A", "E"], "C02": ["E", "E3q", "A", "S"], "C03": ["SQ1", "SQ2", "S", "E"], "C04": ["SQ1", "SQ2", "SQ3", "A"],
+         "C05": ["SQ1", "SQ2", "SQ3", "S"], "C06": ["B", "R", "SQ2", "SQ3"], "C07": ["R", "E", "A"], "C08": ["RX", "R"],
          "C16": ["SQ1", "SQ2", "SQ3", "R"]}
 THOROUGH = {"C01": ["SX", "E", "EL", "S", "A", "B"], "C02": ["SX", "E", "E3q", "EL", "A", "S"], "C03": ["SX", "E", "EL", "S", "A"],
             "C04": ["SX", "SQ3", "S", "A", "B"], "C05": ["SX", "SQ3", "S", "A", "B"], "C06": ["SX", "RX", "E", "B", "R", "S"],
